@@ -107,6 +107,8 @@ pub struct Plan {
     /// History: plans executed before this one on the same thread of the same process (state
     /// that leaks from one load into the next is part of the replay).
     pub prelude: Vec<Plan>,
+    /// configuration: the host application's `log` level was Trace
+    pub log_trace: bool,
 }
 
 pub fn hex(b: &[u8]) -> String {
@@ -157,6 +159,7 @@ impl Plan {
             sched_policy: String::new(),
             note: String::new(),
             prelude: Vec::new(),
+            log_trace: std::env::var("ASESIM_LOG").map(|v| v == "trace").unwrap_or(false),
         }
     }
 
@@ -202,6 +205,7 @@ impl Plan {
             "schedule": self.schedule,
             "sched_policy": self.sched_policy,
             "note": self.note,
+            "log_trace": self.log_trace,
             "history_before": self.prelude.iter().map(|p| p.to_json()).collect::<Vec<_>>(),
         })
     }
@@ -269,6 +273,7 @@ impl Plan {
         }
         p.sched_policy = s("sched_policy").unwrap_or_default();
         p.note = s("note").unwrap_or_default();
+        p.log_trace = v.get("log_trace").and_then(|x| x.as_bool()).unwrap_or(false);
         if let Some(a) = v.get("history_before").and_then(|x| x.as_array()) {
             for h in a {
                 p.prelude.push(Plan::from_json(h)?);
